@@ -283,7 +283,8 @@ Qed.
 Lemma cinv_step start s outs e :
   cinv start s outs -> cinv start (fst (c_step s e)) (outs ++ snd (c_step s e)).
 Proof.
-  intros I. destruct e as [|ty id p| | |cw].
+  intros I. destruct e as [|ty id p| | |cw|].
+  6: { cbn [c_step]. destruct (c_open s) eqn:Ho; [apply cinv_cleanup; assumption|]. cbn [fst snd]. rewrite app_nil_r. exact I. }
   - (* CSend *)
     cbn [c_step fst snd]. destruct I.
     pose proof (dict_set_keys (c_reqs s) (c_next s) (c_count s) ci_keys0) as [K1 K2].
@@ -1639,4 +1640,22 @@ Lemma accept_err_is_sftp v rt ty p e : accept v rt ty p = Err e -> exists c, e =
 Proof.
   unfold accept. destruct (accept_old v rt ty p) as [x|e'] eqn:E; [discriminate|].
   destruct (accept_old_err _ _ _ _ _ E) as [->|[c ->]]; intros H; inversion H; eauto.
+Qed.
+
+(* the session ends (clean EOF, short frame, or the stream failing with ConnectionLost / DisconnectError /
+   reset): the table is drained and every waiter that was not cancelled is failed *)
+Definition is_end (e : cev) : bool := match e with CEof | CBadFrame | CAbort => true | _ => false end.
+
+Lemma session_end_drains s e :
+  is_end e = true -> c_open s = true ->
+  c_reqs (fst (c_step s e)) = [] /\ c_open (fst (c_step s e)) = false /\
+  forall id w, In (id, w) (c_reqs s) -> memz w (c_cancelled s) = false ->
+               exists x, In (OFail w x) (snd (c_step s e)).
+Proof.
+  intros He Ho.
+  assert (H : exists x, c_step s e = c_cleanup s x).
+  { destruct e; try discriminate He; cbn [c_step]; rewrite Ho; eauto. }
+  destruct H as [x ->]. unfold c_cleanup. cbn [fst snd c_reqs c_open]. split; [reflexivity|]. split; [reflexivity|].
+  intros id w Hin Hc. exists x. apply in_map_iff. exists (id, w). split; [reflexivity|].
+  apply filter_In. split; [exact Hin|]. cbn [snd]. rewrite Hc. reflexivity.
 Qed.
